@@ -519,8 +519,8 @@ def check(ctx, tag='', **kw):
     edges = fsm.out_edges(send_st)
     nm = M.greads(edges) | {DONE}
     ob('send-state', 'send-state.exit',
-       M.forall(nm, lambda e, s: M.goto(e, send_st) == (init if e[DONE] else send_st)), fsm.state_loc[send_st],
-       'the send state must wait for packet_tx.done and then return to dispatch (staying would send the header twice)')
+       M.forall(nm, lambda e, s: M.goto(e, send_st) == (init if e[DONE] else send_st), fixed={EN: 1}, extra=[EN]), fsm.state_loc[send_st],
+       'while the link is up the send state must wait for packet_tx.done and then return to dispatch (staying would send the header twice)')
     dr = combs(deq)
     nm = M.reads(dr) | {DONE, pend}
     ob('send-state', 'send-state.dequeue',
@@ -559,7 +559,7 @@ def check(ctx, tag='', **kw):
     nm = M.greads(edges) | {DONE, to_send}
     ob('retry-state', 'retry-state.exit',
        M.forall(nm, lambda e, s: e[to_send] == 0 or
-                M.goto(e, retry_st) == (init if (e[DONE] and e[to_send] == 1) else retry_st), fixed={RR: 0}, extra=[RR]),
+                M.goto(e, retry_st) == (init if (e[DONE] and e[to_send] == 1) else retry_st), fixed={RR: 0, EN: 1}, extra=[RR, EN]),
        fsm.state_loc[retry_st],
        'the retry state must be left exactly when the last (to-send == 1) retransmission is done, towards dispatch: leaving '
        'earlier sends unacknowledged headers without the delayed flag, later retransmits a header that was never queued')
@@ -628,9 +628,33 @@ def check_raw(ctx):
            'two different queued headers: %s' % [q.fmt(x) for x in live[:3]])
 
 
+def check_disable(ctx):
+    """`enable` low flushes the counters and pointers; the dispatch FSM must be flushed with them: a state that waits to
+    (re)transmit and survives the link going down generates headers from the flushed buffers -- while the link is down and,
+    after the next bring-up, with nothing queued and no credit consumed."""
+    from ..fsm import state_outcomes
+    ir = ctx.ir('PacketTransmitter', 'usb3.link.transmitter')
+    fsm = ctx.the_fsm(ir)
+    EN = 'self.enable'
+    flushed = [a.lhs.canon() for a in ir.assigns if a.state is None and q.atoms(a) == {(EN, False)} and q.is_zero(a.rhs)]
+    ctx.need(len(flushed) >= 4, 'the block that flushes the queues while enable is low (found %s)' % flushed)
+    for st in fsm.states:
+        if st == fsm.init:
+            continue
+        outs = state_outcomes(fsm, st, {EN: False})
+        ctx.ob('C39.disable-flushes-fsm', 'PacketTransmitter.%s@disabled' % st, set(outs) == {fsm.init}, fsm.state_loc[st],
+               'with enable low the state %s must return to the initial state %s (the queues it works from are flushed): '
+               'outcomes %s' % (st, fsm.init, sorted(map(str, outs))))
+    stay = state_outcomes(fsm, fsm.init, {EN: False})
+    gen = [a for a in q.raises(ir, 'packet_tx.generate') if a.state is None or a.state[1] == fsm.init]
+    ctx.ob('C39.disable-flushes-fsm', 'PacketTransmitter.%s@disabled' % fsm.init, not gen, fsm.state_loc[fsm.init],
+           'the initial state never starts a packet itself: %s (outcomes with enable low: %s)' % ([q.fmt(a) for a in gen], sorted(map(str, stay))))
+
+
 def run(ctx):
     check(ctx)
     check_raw(ctx)
+    check_disable(ctx)
     if ctx.tier == 'thorough':
         check(ctx, tag='buffer_count=2', buffer_count=2)
         check(ctx, tag='buffer_count=8', buffer_count=8)
